@@ -72,8 +72,10 @@ class MeshLine1(MeshSimplex, Mesh):
             # the children of cell k are 2k and 2k+1 (interleaved), which the
             # generic k, k+nt propagation in Mesh.refined does not describe
             _subdomains=(None if self._subdomains is None else {
-                name: np.sort(np.concatenate((2 * np.asarray(ixs),
-                                              2 * np.asarray(ixs) + 1)))
+                name: np.sort(np.concatenate((
+                    2 * np.asarray(ixs, dtype=np.int64),
+                    2 * np.asarray(ixs, dtype=np.int64) + 1,
+                )))
                 for name, ixs in self._subdomains.items()
             }),
         )
